@@ -75,6 +75,11 @@ class ArrEvaluator(Evaluator):
                 q = rat_of(r)
                 if q.is_const():
                     return SelV({int(q.const_value())})
+            # whole index columns compare like selected ones: `sources > sinks` is the selector {*;src>snk}
+            if isinstance(l, ArrV) and l.kind == "index":
+                l = IdxV(l.role, l.sel)
+            if isinstance(r, ArrV) and r.kind == "index":
+                r = IdxV(r.role, r.sel)
             if isinstance(l, IdxV) and isinstance(r, IdxV) and isinstance(op, (ast.Gt, ast.Lt)):
                 # sources{sel} > sinks{sel}
                 ln, rn = l.base, r.base
@@ -210,6 +215,9 @@ class ArrEvaluator(Evaluator):
     def ev_BinOp(self, e, env, ctx):
         l = self._try(e.left, env, ctx)
         r = self._try(e.right, env, ctx)
+        # row masks combine:  (types == 0) & (sources > sinks)  selects what  x[types == 0][(sources > sinks)[types == 0]]  selects
+        if isinstance(e.op, ast.BitAnd) and isinstance(l, SelV) and isinstance(r, SelV):
+            return l.combine(r)
         if isinstance(l, ArrV) or isinstance(r, ArrV):
             if isinstance(e.op, ast.Mult):
                 arr, other = (l, r) if isinstance(l, ArrV) else (r, l)
